@@ -21,7 +21,7 @@ def run(ctx):
     jobs, meta = [], []
     for ci, c in enumerate(cases):
         orders = list(itertools.permutations(sorted(c["sel"])))
-        for o in (orders if not ctx.quick else rnd.sample(orders, min(2, len(orders)))):
+        for o in rnd.sample(orders, min(2 if ctx.quick else 6, len(orders))):
             calls = scenario_calls(list(o), c["prefix"], c["common"])
             calls.append({"op": "text_encode", "reg": "r", "mode": "to_string"})
             # a second phase: unregister the first collector, update the others, gather again
@@ -68,31 +68,35 @@ def run(ctx):
                  {"op": "gather", "reg": "r"}, {"op": "text_encode", "reg": "r", "mode": "to_string"}, {"op": "families_json", "lit": lit}, {"op": "text_encode", "lit": lit, "mode": "to_string"}]
         jobs.append({"id": len(jobs), "calls": calls})
         meta.append((None, ()))
-    ra = run_api(ctx, exe_pb, jobs, "pb", nproc=8)
-    rb = run_api(ctx, exe_plain, jobs, "plain", nproc=8)
     nok = 0
     ncmp = 0
-    for j, (ci, o) in zip(jobs, meta):
-        a, b = ra[j["id"]], rb[j["id"]]
-        c = cases[ci] if ci is not None else {"sel": ["custom-collector families"], "prefix": "", "common": []}
-        ok = True
-        for k, (call, x, y) in enumerate(zip(j["calls"], a, b)):
-            if call["op"] in ("gather", "families_json") and "ok" in x and "ok" in y:
-                x = {"ok": strip(x["ok"])}
-                y = {"ok": strip(y["ok"])}
-            ncmp += 1
-            if x != y:
-                # localise: which build departs from the specification (first gather only)?
-                who = ""
-                if ci is not None and call["op"] == "gather" and k == len(scenario_calls(list(o), c["prefix"], c["common"])) - 1:
-                    wa = c07.compare(c, x.get("ok", [])) if "ok" in x else "failed"
-                    wb = c07.compare(c, y.get("ok", [])) if "ok" in y else "failed"
-                    who = " (vs Gather spec: protobuf build %s; plain build %s)" % (wa or "conforms", wb or "conforms")
-                ctx.violation("builds-differ:" + call["op"], "registry %s order %s: call #%d %s gives %s with the protobuf-backed model and %s with the plain model%s" % (
-                    sorted(c["sel"]), list(o), k, json.dumps(call)[:120], json.dumps(x)[:300], json.dumps(y)[:300], who), {"calls": j["calls"][:k + 1]})
-                ok = False
-                break
-        nok += 1 if ok else 0
+    allj = list(zip(jobs, meta))
+    for off, part in chunks(allj, 4000):
+        pj = [j for j, _ in part]
+        ra = run_api(ctx, exe_pb, pj, "pb%d" % off, nproc=8)
+        rb = run_api(ctx, exe_plain, pj, "plain%d" % off, nproc=8)
+        for j, (ci, o) in part:
+            a, b = ra[j["id"]], rb[j["id"]]
+            c = cases[ci] if ci is not None else {"sel": ["custom-collector families"], "prefix": "", "common": []}
+            ok = True
+            for k, (call, x, y) in enumerate(zip(j["calls"], a, b)):
+                if call["op"] in ("gather", "families_json") and "ok" in x and "ok" in y:
+                    x = {"ok": strip(x["ok"])}
+                    y = {"ok": strip(y["ok"])}
+                ncmp += 1
+                if x != y:
+                    # localise: which build departs from the specification (first gather only)?
+                    who = ""
+                    if ci is not None and call["op"] == "gather" and k == len(scenario_calls(list(o), c["prefix"], c["common"])) - 1:
+                        wa = c07.compare(c, x.get("ok", [])) if "ok" in x else "failed"
+                        wb = c07.compare(c, y.get("ok", [])) if "ok" in y else "failed"
+                        who = " (vs Gather spec: protobuf build %s; plain build %s)" % (wa or "conforms", wb or "conforms")
+                    ctx.violation("builds-differ:" + call["op"], "registry %s order %s: call #%d %s gives %s with the protobuf-backed model and %s with the plain model%s" % (
+                        sorted(c["sel"]), list(o), k, json.dumps(call)[:120], json.dumps(x)[:300], json.dumps(y)[:300], who), {"calls": j["calls"][:k + 1]})
+                    ok = False
+                    break
+            nok += 1 if ok else 0
+        del ra, rb
     ctx.cov.update({"traces_validated_against_impl": nok, "scenarios": len(jobs), "custom_collector_family_scenarios": len(jobs) - nbase, "scenarios_identical": nok, "call_results_compared": ncmp, "configurations": len(cases),
                     "samples": [{"sel": cases[len(cases) // 2]["sel"], "prefix": cases[len(cases) // 2]["prefix"], "common": cases[len(cases) // 2]["common"]}],
                     "rule": "GatherGen configurations (TLC) executed as identical call sequences (creation, updates, registration, gather, text encoding, unregistration, further updates incl. NaN observation and child removal, re-registration) "
